@@ -141,6 +141,10 @@ def run(ctx):
 
     # ---------------- R3 round terms / whole-function restatements -----------------------------
     ctx.rule('C01-R3 algorithm terms')
+    cmp_fn(ctx, 'SHA1.__init__', SHA, 'SHA1.__init__', S.SHA1_INIT % tuple(K.SHA1_K))
+    cmp_fn(ctx, 'SHA1.initstate', SHA, 'SHA1.initstate', S.SHA1_INITSTATE % (K.SHA1_IV,), unroll=16)
+    cmp_fn(ctx, 'MD4.__init__', MD, 'MD4.__init__', S.MD4_INIT % (K.MD4_K, [tuple(x) for x in K.MD4_S]))
+    cmp_fn(ctx, 'MD4.initstate', MD, 'MD4.initstate', S.MD4_INITSTATE % (K.MD_IV,), unroll=16)
     cmp_fn(ctx, 'SHA1.update', SHA, 'SHA1.update', S.SHA1_UPDATE, OPT)
     cmp_fn(ctx, 'SHA2.update', SHA, 'SHA2.update', S.SHA2_UPDATE, OPT)
     cmp_fn(ctx, 'SHA1.iterblocks', SHA, 'SHA1.iterblocks', S.SHA_ITERBLOCKS)
